@@ -61,7 +61,15 @@ def runBalance (s : St) : String :=
     let judge := if fails.isEmpty then "ok" else
       "FAIL " ++ "|".intercalate (fails.map (·.1)) ++ " :: " ++ " ; ".intercalate (fails.map fun (k, v) => k ++ ": " ++ v)
     let changed := if (treeDiff a.root b.root []).isSome then 1 else 0
-    s!"{s.id} corr={corr} inv=ok judge={judge} raw={b.root.size} vis=0 inner={cs.inner} leaves={la.length} changed={changed} balcase=1 bytes=0 kind={s.kind}"
+    -- `balance_summarized` / `compress_symbol` evaluated: hypotheses (input summarized; rotated nodes hidden,
+    -- non-extra, alias-free wherever ts_subtree_compress is called) and conclusion (on the PORT's result,
+    -- which the correspondence identifies with the real one: every summary kept, face of the tree kept)
+    let inSumm := (corrTree lang b.root [] {}).fails.render == "ok"
+    let hyp := match s.balmode with
+      | ["compress", _] => rotOK lang b.root
+      | _ => balanceOK lang fuel b.root
+    let concl := (corrTree lang port [] {}).fails.render == "ok" && faceEq port b.root
+    s!"{s.id} corr={corr} inv=ok judge={judge} raw={b.root.size} vis=0 inner={cs.inner} leaves={la.length} changed={changed} balcase=1 balin={if inSumm then 1 else 0} balhyp={if hyp then 1 else 0} balconcl={if concl then 1 else 0} balwhy={if isErrSym b.root.data.symbol then "errsym" else toString (rotWhy lang b.root.data.symbol b.root)} bytes=0 kind={s.kind}"
   | _, _, _ => s!"{s.id} corr=BADINPUT inv=ok judge=BADINPUT"
 
 def step (s : St) (line : String) : IO St := do
